@@ -316,7 +316,11 @@ func (o *Obl) discharge(timeoutS int) {
 	sps := solvers
 	if o.Kind == "rel" && !o.Canary {
 		// relational goals: race the three configurations, first definitive answer wins
-		res, name, d := raceSolvers(relSolvers, q, timeoutS)
+		tmo := timeoutS
+		if tmo < 30 {
+			tmo = 30 // two-run goals: few, large; the margin costs nothing when they are proved
+		}
+		res, name, d := raceSolvers(relSolvers, q, tmo)
 		o.TimeMS = int(d / time.Millisecond)
 		o.Solver = name
 		switch res {
